@@ -81,7 +81,9 @@ def _glexindex(start, stop, cross_truncation=1.0):
     bound = stop.max()
     dimensions = len(start)
     start = numpy.clip(start, a_min=0, a_max=None)
-    dtype = numpy.uint8 if bound < 256 else numpy.uint16
+    dtype = (
+        numpy.uint8 if bound < 256 else numpy.uint16 if bound < 65536 else numpy.int64
+    )
     range_ = numpy.arange(bound, dtype=dtype)
     indices = range_[:, numpy.newaxis]
 
